@@ -382,7 +382,15 @@ LIKE_FIRST = {"negative", "positive", "add", "subtract", "multiply", "divide", "
 
 def oracle_normalize_like(e):
     """Own re-statement of expr.normalize_like over real objects' kind/operands.  Returns None when
-    the answer needs type inference the oracle does not have (absolute of a non-symbol)."""
+    the answer needs type inference the oracle does not have (absolute of a non-symbol) or when an
+    operation of irregular arity makes the walk fall off the operand tuple."""
+    try:
+        return _oracle_normalize_like(e)
+    except IndexError:
+        return None
+
+
+def _oracle_normalize_like(e):
     while True:
         k = e.kind
         if k in ("constant", "select"):
@@ -423,11 +431,17 @@ class Result:
         self.stats[k] = self.stats.get(k, 0) + n
 
 
-def execute(fa, history, enc, want_lines=True):
-    """Run one history on a fresh real Context.  `fa` is the imported functional_algorithms package."""
+def execute(fa, history, enc, want_lines=True, alt=False):
+    """Run one history on a fresh real Context.  `fa` is the imported functional_algorithms package.
+    alt=True: the context is created with enable_alt=True (constant values live in the alternate context as
+    expressions; not modelled in Lean, so no driver lines; the oracle's classes are the same because the
+    alternate constant is a function of the exact value).  Operations whose operands are ALL constants are
+    skipped in that mode (they are folded into one constant, which is not a structural construction)."""
     Expr = fa.expr.Expr
     res = Result()
-    ctx = fa.Context()
+    ctx = fa.Context(enable_alt=True) if alt else fa.Context()
+    if alt:
+        want_lines = False
     objs = []            # step -> returned Expr or None
     slots = {}           # slot -> python value object
     keep_vals = []       # value objects kept alive (ids stay unique)
@@ -437,6 +451,7 @@ def execute(fa, history, enc, want_lines=True):
     cls_first_obj = {}   # oracle struct -> object number
     obj_first_cls = {}   # object number -> oracle struct
     valspec_of_obj = {}  # object number of a constant -> its value spec (as first requested)
+    state = {"has_sub": False}  # a value of a class that shadows a builtin type name was used (malformed stream)
 
     def num(o):
         if id(o) not in objnum:
@@ -473,7 +488,7 @@ def execute(fa, history, enc, want_lines=True):
                             "two constants of identical type, NaN content and like operand are distinct expressions "
                             "(the value objects are distinct Python objects and NaN != NaN)", step)
                 else:
-                    finding("split:" + struct[0], "structurally identical constructions returned different objects: %r" % (struct,), step)
+                    finding("split:" + _cls(struct[0]), "structurally identical constructions returned different objects: %r" % (struct,), step)
         else:
             if n in obj_first_cls:
                 other = obj_first_cls[n]
@@ -483,7 +498,7 @@ def execute(fa, history, enc, want_lines=True):
                             "constants whose values differ only in the sign of a zero are one expression "
                             "(key compares values with ==): requested %r, got the expression of %r" % (spec["v"], valspec_of_obj[n]["v"]), step)
                 else:
-                    finding("alias:%s~%s" % (other[0], struct[0]),
+                    finding("alias:%s~%s" % (_cls(other[0]), _cls(struct[0])),
                             "a construction returned the object of a structurally different earlier one: %r vs %r" % (struct, other), step)
             else:
                 cls_first_obj[struct] = n
@@ -499,7 +514,10 @@ def execute(fa, history, enc, want_lines=True):
             ok = r.operands[0] == operands[0] and real_type_struct(r.operands[1]) == operands[1]
         elif ok and kind == "constant":
             got = r.operands[0]
-            ok = r.operands[1] is operands[1]
+            if alt and isinstance(got, Expr):
+                ok = got.kind == "constant" and got.context is ctx.alt
+                got = got.operands[0] if ok else got
+            ok = ok and r.operands[1] is operands[1]
             if ok and not (type(got) is type(value) and _same_content(got, value)):
                 if type(got).__name__ == type(value).__name__ and zero_sign_blind(spec) == zero_sign_blind(valspec_of_obj.get(num(r), spec)) and not has_nan(spec):
                     finding("constant:negative-zero-aliases-positive-zero",
@@ -509,7 +527,7 @@ def execute(fa, history, enc, want_lines=True):
         elif ok:
             ok = all(a is b for a, b in zip(r.operands, operands))
         if not ok:
-            finding("returned-expression-is-not-the-requested-one:" + kind, "requested %s%r, got %s with operands %r" % (kind, operands, r.kind, r.operands), step)
+            finding("returned-expression-is-not-the-requested-one:" + _cls(kind), "requested %s%r, got %s with operands %r" % (kind, operands, r.kind, r.operands), step)
 
     def sync_new(step, before):
         """Registrations made implicitly by a compound call (or by a primitive call that registered more than
@@ -534,7 +552,7 @@ def execute(fa, history, enc, want_lines=True):
                 res.desync = True
                 return
 
-    def attempt(step, thunk, line_tokens, struct_fn, kind, operands, spec=None, value=None, modelled=True):
+    def attempt(step, thunk, line_tokens, struct_fn, kind, operands, spec=None, value=None, modelled=True, wellformed=lambda: True):
         before = ctx._expression_counter
         res.constructions += 1
         try:
@@ -556,8 +574,9 @@ def execute(fa, history, enc, want_lines=True):
                 out = ("fresh" if new == 1 and r.intkey == before else "hit" if new == 0 else "multi%d" % new)
         res.outcomes.append(out)
         res.count("out:" + out.split(":")[0])
-        if ctx._expression_counter != before and r is None:
-            finding("failed-construction-changed-the-registry", "counter %d -> %d although the construction raised %s" % (before, ctx._expression_counter, out), step)
+        if r is None and wellformed():
+            finding("wellformed-construction-raises:" + out.replace("EXC:", ""),
+                    "a construction over valid operands/values raised %s" % out, step)
         if out.startswith("multi") or (out.startswith("EXC") and ctx._expression_counter != before):
             sync_new(step, before)
         if modelled and want_lines and (out in ("fresh", "hit", "RuntimeError")):
@@ -615,7 +634,11 @@ def execute(fa, history, enc, want_lines=True):
             except TypeError:
                 toks, modelled = [], False
             thunk = (lambda: ctx.constant(v, like)) if st.get("via", "ctx") == "ctx" else (lambda: fa.expr.make_constant(ctx, v, like))
-            r = attempt(step, thunk, toks, lambda: ("constant", strict_value(spec), num(nl)), "constant", (v, nl), spec, v, modelled)
+            if spec["t"].startswith("sub."):
+                state["has_sub"] = True
+            wf = spec["t"] not in ("np.bool_", "none") and not spec["t"].startswith("sub.") and not (alt and spec["t"] == "str")
+            r = attempt(step, thunk, toks, lambda: ("constant", strict_value(spec), num(nl)), "constant", (v, nl), spec, v, modelled,
+                        wellformed=lambda: wf and not state["has_sub"])
             res.count("step:const:" + spec["t"])
             if spec.get("slot") is not None:
                 res.count("const:shared-object")
@@ -628,6 +651,10 @@ def execute(fa, history, enc, want_lines=True):
                 objs.append(None)
                 continue
             kind, via = st["kind"], st.get("via", "expr")
+            if alt and kind != "list" and all(a.kind == "constant" for a in args):
+                res.outcomes.append("skip")
+                objs.append(None)
+                continue
             if via == "method" and kind in METHOD:
                 thunk = lambda: getattr(ctx, METHOD[kind])(*args)  # noqa
             elif via == "operator" and kind in OPERATOR:
@@ -635,7 +662,9 @@ def execute(fa, history, enc, want_lines=True):
             else:
                 thunk = lambda: Expr(ctx, kind, tuple(args))  # noqa
             r = attempt(step, thunk, ["op", kind] + [str(a.intkey) for a in args],
-                        lambda: (kind,) + tuple(num(a) for a in args), kind, tuple(args))
+                        lambda: (kind,) + tuple(num(a) for a in args), kind, tuple(args), wellformed=lambda: kind not in SPECIAL and not (kind == "select" and len(args) < 2)
+                        # with enable_alt the constructor runs type inference over constant operands, which may raise
+                        and not (alt and any(a.kind == "constant" for a in args)))
             res.count("step:expr:arity%d" % len(args))
             res.count("kind:" + kind)
         elif op == "cconst":
@@ -773,6 +802,18 @@ def execute(fa, history, enc, want_lines=True):
             if ts in seen and seen[ts] is not T:
                 finding("type-singleton:structurally-equal-types-are-distinct-objects", repr(ts), len(history))
             seen.setdefault(ts, T)
+    # ... and Type.__eq__/__hash__ are structural: equal iff same (kind, param) tree
+    tl = list(seen.items())[:12]
+    for i, (ts1, T1) in enumerate(tl):
+        for ts2, T2 in tl[i:]:
+            try:
+                eq = bool(T1 == T2)
+                heq = hash(T1) == hash(T2)
+            except Exception as e:  # noqa
+                finding("type-eq:raises", "%r == %r raised %s" % (ts1, ts2, type(e).__name__), len(history))
+                continue
+            if eq != (ts1 == ts2) or (eq and not heq):
+                finding("type-eq:not-structural", "Type %r == Type %r is %r (hash equal: %r)" % (ts1, ts2, eq, heq), len(history))
     # ids dense: intkeys of all objects are exactly 0..counter-1, each once
     ids = sorted(o.intkey for o in ctx._expressions.values())
     if ids != list(range(ctx._expression_counter)):
@@ -780,6 +821,11 @@ def execute(fa, history, enc, want_lines=True):
     res.n_objects = len(objnum)
     res.n_registered = ctx._expression_counter
     return res
+
+
+def _cls(kind):
+    """cause signatures name the class of expression, not the individual kind"""
+    return kind if kind in ("symbol", "constant") else "operation"
 
 
 def _same_content(a, b):
